@@ -58,7 +58,7 @@ def case_st(draw):
         for r in range(n):
             if hit[r] and flips[r] > 0:
                 cvar["answers"][r] = [-1] * len(cvar["items"])
-    tx, inforce = draw(xforms.slice_insertions_st(sc, where="transforms", max_ins=2,
+    tx, inforce = draw(xforms.slice_insertions_st(sc, where="transforms", max_ins=3,
                                                   allow_malformed=False))
     sc["transforms"] = tx
     sc["insertions"] = inforce
